@@ -749,6 +749,21 @@ func checkC05(P *Prog, r *Result) {
 	if ca.addIssue != nil {
 		allowed[ca.addIssue] = true
 	}
+	// unexported helpers of AddIssue (`c.swallow(e)`) called from nowhere else: their Exit store is judged with
+	// AddIssue's (under CanCatch at the store or at the call)
+	for h := range ca.addIssueHelpers {
+		only := true
+		for _, caller := range P.Funcs {
+			eachInstr(caller, func(_ *ssa.BasicBlock, _ int, in ssa.Instruction) {
+				if ci := callOf(in); ci != nil && ci.static == h && caller != ca.addIssue && !ca.addIssueHelpers[caller] {
+					only = false
+				}
+			})
+		}
+		if only {
+			allowed[h] = true
+		}
+	}
 	// helpers of the pipelines (`armCatch(ctx, catch)`): an unexported function called only from a pipeline's
 	// entry block (or from such a helper's), never taken as a value; the store in it is judged with the helper's
 	// parameters bound to the pipeline's arguments
@@ -820,7 +835,7 @@ func checkC05(P *Prog, r *Result) {
 				r.bad("C05/flag-writers", c, P.ipos(in), "catch flag set outside the primitive pipelines / AddIssue")
 				return
 			}
-			if fn == ca.addIssue {
+			if fn == ca.addIssue || ca.addIssueHelpers[fn] {
 				if !ca.addCond || !sameField(flag, R.FExit) {
 					r.bad("C05/flag-writers", c, P.ipos(in), "AddIssue sets a catch flag on a path where the node cannot catch")
 					return
